@@ -1,3 +1,4 @@
+import SFV.Gen.IoNames
 /-
 K8 — Program ↔ IR conversion.  Executable model of the logic core of
 `strawberryfields/io/blackbird_io.py` (`to_blackbird`, `from_blackbird`, `from_blackbird_to_tdm`),
@@ -13,7 +14,9 @@ What is *not* modelled but abstracted:
   set of modes from the operations) respectively the identity (XIR); validated through real text on
   every run;
 * operation constructors are the identity on the stored parameter list `op.p` (the writers emit all of
-  `op.p`), except `Fouriergate`, whose constructor takes no argument.
+  `op.p`), except `Fouriergate`, whose constructor takes no argument and fixes `p = [π/2]`;
+* parsing an expression string (`parameters.par_from_str`, SymPy) is a table `P : String → Option ISym`
+  handed to the readers (what SymPy returns for the strings of the IR at hand).
 
 Core Lean only (no Mathlib).
 -/
@@ -53,10 +56,85 @@ structure Sym where
   meas : List Nat
   /-- names of the `FreeParameter` atoms -/
   frees : List String
+  /-- the number the expression currently evaluates to (all atoms bound by `bind_params` / measured in
+  an earlier run), `none` otherwise: state kept between calls, which no converter may look at -/
+  val : Option Sc := none
 deriving DecidableEq, Repr, Inhabited
 
 /-- `-a` -/
-def Sym.negate (e : Sym) : Sym := { e with pos := e.neg, neg := e.pos }
+def Sym.negate (e : Sym) : Sym := { e with pos := e.neg, neg := e.pos, val := e.val.map Sc.neg }
+
+/-- the same expression in a program in which nothing is bound or measured yet -/
+def Sym.noVal (e : Sym) : Sym := { e with val := none }
+
+/-- the value of a constant symbolic expression (no free or measured parameter in it, e.g. a
+decomposition product `0.72 - 0.5*pi`): `par_evaluate` always succeeds on it -/
+def constVal (e : Sym) : Option Sc := if e.meas = [] ∧ e.frees = [] then e.val else none
+
+/-! ### subsystem indices in symbol names
+
+SymPy symbols carry *names*; `MeasuredParameter(q[i])` is named `"q" + str(i)` and `par_convert` goes back from
+the name to the subsystem (`re.fullmatch("q[0-9]+", name)`, `int(name[1:])`).  Decimal printing and parsing
+are modelled on digit lists. -/
+
+def digitChar (d : Nat) : Char := Char.ofNat (48 + d)
+
+/-- `str(n)` as a list of characters -/
+def printIndex (n : Nat) : List Char :=
+  if n < 10 then [digitChar n] else printIndex (n / 10) ++ [digitChar (n % 10)]
+decreasing_by omega
+
+def digitVal (c : Char) : Option Nat :=
+  if 48 ≤ c.toNat ∧ c.toNat ≤ 57 then some (c.toNat - 48) else none
+
+/-- `int(s)` for a string of ASCII digits, given the value of the digits read so far -/
+def parseFrom : Nat → List Char → Option Nat
+  | acc, [] => some acc
+  | acc, c :: cs => match digitVal c with
+    | some d => parseFrom (acc * 10 + d) cs
+    | none => none
+
+/-- `int(s)` for `s` matching `[0-9]+` (`none`: no match) -/
+def parseIndex : List Char → Option Nat
+  | [] => none
+  | cs => parseFrom 0 cs
+
+/-- the name of the measured parameter of subsystem `i` -/
+def qName (i : Nat) : String := String.ofList ('q' :: printIndex i)
+
+/-- `par_convert`: the subsystem a symbol name denotes, if it is `q<index>` -/
+def measuredIndex (name : String) : Option Nat :=
+  match name.toList with
+  | 'q' :: ds => parseIndex ds
+  | _ => none
+
+/-- the name of the `i`-th loop variable of a TDM program (`f"p{i}"`) -/
+def pName (i : Nat) : String := String.ofList ('p' :: printIndex i)
+
+/-- `tdm.is_ptype(name)` together with `int(name[1:])` (the TDM readers): `len(name) > 1 and name[0] == "p" and
+name[1:].isdigit()` (ASCII digits) -/
+def ptypeIndex (name : String) : Option Nat :=
+  match name.toList with
+  | 'p' :: ds => parseIndex ds
+  | _ => none
+
+/-- an expression over plain SymPy symbols, as the IRs hold it (`RegRefTransform.expr`, the result of
+`par_from_str`): printed forms and the *names* of its symbols -/
+structure ISym where
+  pos : Face
+  neg : Face
+  names : List String
+  val : Option Sc := none
+deriving DecidableEq, Repr, Inhabited
+
+/-- the IR-side expression of an SF expression: measured parameters appear under their names `q<i>` -/
+def toI (e : Sym) : ISym := { pos := e.pos, neg := e.neg, names := e.meas.map qName ++ e.frees, val := e.val }
+
+/-- `par_convert`: symbols named `q<i>` become measured parameters of subsystem `i`, all others free
+parameters of that name -/
+def fromI (ie : ISym) : Sym :=
+  { pos := ie.pos, neg := ie.neg, meas := ie.names.filterMap measuredIndex,
+    frees := ie.names.filter fun s => (measuredIndex s).isNone, val := none }
 
 /-- the canonical loop variable `p_i` of a TDM program -/
 def loopSym (i : Nat) : Sym :=
@@ -74,8 +152,8 @@ inductive Val
   | arr (shape : List Nat) (data : List Sc)
   /-- SymPy expression over SF parameters -/
   | sym (e : Sym)
-  /-- `blackbird.RegRefTransform` wrapping the expression -/
-  | rrt (e : Sym)
+  /-- an expression over plain symbols: `blackbird.RegRefTransform`, or what `par_from_str` returns -/
+  | rrt (e : ISym)
   /-- the string `"p<i>"` in a TDM IR -/
   | pname (i : Nat)
 deriving DecidableEq, Repr, Inhabited
@@ -112,12 +190,21 @@ structure Prog where
   shots : Option Nat := none
   cutoff : Option Nat := none
   tdm : Option Tdm := none
+  /-- run and backend options other than `shots` and `cutoff_dim` (run options first) -/
+  extra : List (String × Val) := []
   cmds : List Cmd
 deriving DecidableEq, Repr, Inhabited
 
 inductive Err
   | valueError | typeError | indexError | nameError | unmodelled
 deriving DecidableEq, Repr, Inhabited
+
+instance {ε α : Type} [DecidableEq ε] [DecidableEq α] : DecidableEq (Except ε α) := fun a b =>
+  match a, b with
+  | .ok x, .ok y => if h : x = y then isTrue (by rw [h]) else isFalse (fun e => h (by cases e; rfl))
+  | .error x, .error y => if h : x = y then isTrue (by rw [h]) else isFalse (fun e => h (by cases e; rfl))
+  | .ok _, .error _ => isFalse (fun e => by cases e)
+  | .error _, .ok _ => isFalse (fun e => by cases e)
 
 /-- `"Measure" in name` -/
 def isPrefixL : List Char → List Char → Bool
@@ -135,6 +222,12 @@ def isMeasure (cls : String) : Bool := isInfixL "Measure".toList cls.toList
 def negInverts (cls : String) : Bool :=
   ["Xgate", "Zgate", "Rgate", "Pgate", "Vgate", "Kgate", "CXgate", "CZgate", "CKgate", "Dgate", "Sgate",
    "BSgate", "S2gate"].contains cls
+
+/-- `np.pi / 2` as the float it is -/
+def halfPi : Val := .sc (.flt (884279719003555 / 562949953421312))
+
+/-- `io.utils._constructor_params`: the constructor of `Fouriergate` takes no argument -/
+def ctorParams (c : Cmd) : List Val := if c.cls = "Fouriergate" then [] else c.pars
 
 /-- highest mode index used by a list of mode lists, plus one (`max(modes) + 1`); 0 if none -/
 def maxSucc : List Nat → Nat
@@ -164,23 +257,22 @@ structure BB where
   tdm : Option Nat := none
   /-- `bb._var["p0"], bb._var["p1"], …` (each a one-row array) -/
   vars : List (List Sc) := []
+  /-- the other entries of `bb.target["options"]` -/
+  extra : List (String × Val) := []
   ops : List BBOp
 deriving DecidableEq, Repr, Inhabited
 
-/-- conversion of a gate/preparation/channel argument in `to_blackbird` -/
+/-- `_param_to_blackbird` followed by the TDM replacement of loop variables by their names
+(all operations, measurements included) -/
 def bbArg (tdm : Bool) : Val → Val
   | .sym e =>
-    if e.meas ≠ [] then .rrt e          -- contains measured parameters: RegRefTransform
-    else match tdm, e.pos.loop with
-      | true, some i => .pname i        -- `str(p) == str(ar)` for a loop variable: its name
-      | _, _ => .str e.pos.text         -- `str(a)`
-  | v => v
-
-/-- measurement arguments are copied as they are; only TDM loop variables are replaced by their name -/
-def bbMeasArg (tdm : Bool) : Val → Val
-  | .sym e => match tdm, e.pos.loop with
-    | true, some i => .pname i
-    | _, _ => .sym e
+    match constVal e with
+    | some v => .sc v                   -- a constant expression: its value
+    | none =>
+      if e.meas ≠ [] then .rrt (toI e)    -- contains measured parameters: RegRefTransform
+      else match tdm, e.pos.loop with
+        | true, some i => .pname i        -- `str(p) == str(ar)` for a loop variable: its name
+        | _, _ => .str e.pos.text         -- `str(a)`
   | v => v
 
 def optKw (k : String) : Option Val → List (String × Val)
@@ -196,13 +288,13 @@ def negFirst : List Val → Except Err (List Val)
 
 def toBBOp (tdm : Bool) (c : Cmd) : Except Err BBOp :=
   if isMeasure c.cls then
-    .ok { op := c.cls, modes := c.regs, args := c.pars.map (bbMeasArg tdm),
+    .ok { op := c.cls, modes := c.regs, args := c.pars.map (bbArg tdm),
           kwargs := optKw "select" c.select ++
             (if c.cls = "MeasureFock" then optKw "dark_counts" c.dark else []) }
   else do
     let ps ← if c.dagger then
-        (if negInverts c.cls then negFirst c.pars else .error .valueError)
-      else .ok c.pars
+        (if negInverts c.cls then negFirst (ctorParams c) else .error .valueError)
+      else .ok (ctorParams c)
     .ok { op := c.cls, modes := c.regs, args := ps.map (bbArg tdm), kwargs := [] }
 
 /-- `to_blackbird` -/
@@ -213,6 +305,7 @@ def toBB (p : Prog) : Except Err BB := do
   .ok { name := p.name, modes := List.range p.n, target := p.target, shots := sh, cutoff := cu,
         tdm := p.tdm.map fun t => (t.params.headD []).length   -- prog.timebins = len(tdm_params[0])
         vars := match p.tdm with | some t => t.params | none => []
+        extra := if p.target.isSome then p.extra else []
         ops := ops }
 
 /-- insert into an ascending duplicate-free list -/
@@ -220,16 +313,36 @@ def insertAsc (x : Nat) : List Nat → List Nat
   | [] => [x]
   | y :: ys => if x < y then x :: y :: ys else if x = y then y :: ys else y :: insertAsc x ys
 
+/-- text carries no state: a `RegRefTransform` read from text holds no value -/
+def textVal : Val → Val
+  | .rrt e => .rrt { e with val := none }
+  | v => v
+
 /-- what `blackbird.loads(bb.serialize())` returns for `bb`: the set of modes is recomputed from
-the operations (trusted text layer, validated on every run) -/
+the operations, values held by parameters are gone (trusted text layer, validated on every run) -/
 def reparseBB (bb : BB) : BB :=
-  { bb with modes := (bb.ops.map (·.modes)).flatten.foldr insertAsc [] }
+  { bb with modes := (bb.ops.map (·.modes)).flatten.foldr insertAsc []
+            ops := bb.ops.map fun o => { o with args := o.args.map textVal } }
 
 /-- `par_convert` on one argument for a program with `n` subsystems -/
 def convert (n : Nat) : Val → Except Err Val
-  | .rrt e => if e.meas.all (· < n) then .ok (.sym e) else .error .indexError
-  | .sym e => if e.meas.all (· < n) then .ok (.sym e) else .error .indexError
+  | .rrt ie => if (fromI ie).meas.all (· < n) then .ok (.sym (fromI ie)) else .error .indexError
+  | .sym e => if e.meas.all (· < n) then .ok (.sym e.noVal) else .error .indexError
   | v => .ok v
+
+/-- Blackbird `_expression`: a string that `par_from_str` parses (the harness-supplied table `P` answers
+only for strings containing a brace) is the expression it denotes, other arguments stay -/
+def bbExpr (P : String → Option ISym) : Val → Val
+  | .str s => match P s with
+    | some e => .rrt e
+    | none => .str s
+  | v => v
+
+/-- `op["op"] in ops.__all__` (the classes; the shorthand instances are not operations a writer emits) -/
+def checkName (cls : String) : Except Err Unit :=
+  if SFV.Gen.ioClassNames.contains cls then .ok ()
+  else if SFV.Gen.ioShorthands.contains cls then .error .unmodelled
+  else .error .nameError
 
 def lookupKw (k : String) (l : List (String × Val)) : Option Val := (l.find? (·.1 = k)).map (·.2)
 
@@ -239,7 +352,8 @@ def build (cls : String) (regs : List Nat) (args : List Val) (kwargs : List (Str
     Except Err Cmd :=
   if cls = "Fouriergate" ∧ args ≠ [] then .error .typeError
   else if kwargs.any (fun kv => !(["phi", "select", "dark_counts"].contains kv.1)) then .error .unmodelled
-  else .ok { cls := cls, regs := regs, pars := args ++ (lookupKw "phi" kwargs).toList, dagger := inv,
+  else .ok { cls := cls, regs := regs, dagger := inv,
+             pars := if cls = "Fouriergate" then [halfPi] else args ++ (lookupKw "phi" kwargs).toList,
              select := lookupKw "select" kwargs, dark := lookupKw "dark_counts" kwargs, kw := [] }
 
 def convertKw (n : Nat) (l : List (String × Val)) : Except Err (List (String × Val)) :=
@@ -250,15 +364,16 @@ def unPname : Val → Val
   | .pname i => .str ("p" ++ toString i)
   | v => v
 
-def fromBBOp (n : Nat) (o : BBOp) : Except Err Cmd := do
-  let args ← (o.args.map unPname).mapM (convert n)
-  let kws ← convertKw n (o.kwargs.map fun kv => (kv.1, unPname kv.2))
+def fromBBOp (P : String → Option ISym) (n : Nat) (o : BBOp) : Except Err Cmd := do
+  checkName o.op
+  let args ← (o.args.map (bbExpr P ∘ unPname)).mapM (convert n)
+  let kws ← convertKw n (o.kwargs.map fun kv => (kv.1, bbExpr P (unPname kv.2)))
   build o.op o.modes args kws false
 
 /-- `from_blackbird` -/
-def fromBB (bb : BB) : Except Err Prog := do
+def fromBB (P : String → Option ISym) (bb : BB) : Except Err Prog := do
   let n := modeCount [bb.modes]
-  let cmds ← bb.ops.mapM (fromBBOp n)
+  let cmds ← bb.ops.mapM (fromBBOp P n)
   .ok { name := bb.name, n := n, target := bb.target, shots := bb.shots, cutoff := bb.cutoff,
         tdm := none, cmds := cmds }
 
@@ -267,22 +382,23 @@ def tdmArg : Val → Val
   | .pname i => .sym (loopSym i)
   | v => v
 
-def fromBBOpTdm (n : Nat) (o : BBOp) : Except Err Cmd := do
-  let args ← (o.args.map tdmArg).mapM (convert n)
-  let kws ← convertKw n (o.kwargs.map fun kv => (kv.1, tdmArg kv.2))
+def fromBBOpTdm (P : String → Option ISym) (n : Nat) (o : BBOp) : Except Err Cmd := do
+  checkName o.op
+  let args ← (o.args.map (bbExpr P ∘ tdmArg)).mapM (convert n)
+  let kws ← convertKw n (o.kwargs.map fun kv => (kv.1, bbExpr P (tdmArg kv.2)))
   build o.op o.modes args kws false
 
 /-- `from_blackbird_to_tdm`: `TDMProgram(max(bb.modes) + 1)` -/
-def fromBBTdm (bb : BB) : Except Err Prog := do
+def fromBBTdm (P : String → Option ISym) (bb : BB) : Except Err Prog := do
   let n := modeCount [bb.modes]
-  let cmds ← bb.ops.mapM (fromBBOpTdm n)
+  let cmds ← bb.ops.mapM (fromBBOpTdm P n)
   .ok { name := bb.name, n := n, target := bb.target, shots := bb.shots, cutoff := bb.cutoff,
         tdm := some { N := [n], params := bb.vars }, cmds := cmds }
 
 /-- `to_program` on a Blackbird program -/
-def toProgramBB (bb : BB) : Except Err Prog :=
+def toProgramBB (P : String → Option ISym) (bb : BB) : Except Err Prog :=
   if bb.modes = [] then .error .valueError
-  else if bb.tdm.isSome then fromBBTdm bb else fromBB bb
+  else if bb.tdm.isSome then fromBBTdm P bb else fromBB P bb
 
 /-! ### XIR -/
 
@@ -312,28 +428,25 @@ structure XIR where
   stmts : List XStmt
 deriving DecidableEq, Repr, Inhabited
 
-/-- conversion of a gate/preparation/channel argument in `to_xir` -/
+/-- `_param_to_xir` (all operations, the phase of a measurement included); the value an expression
+currently holds is not looked at -/
 def xirArg (tdm : Bool) : Val → Val
-  | .sym e => match tdm, e.pos.loop with
-    | true, some i => .pname i      -- `a in prog.loop_vars`: its name
-    | _, _ => .str e.pos.plain      -- `a.name` / `str` of the expression with plain names
+  | .sym e =>
+    match constVal e with
+    | some v => .sc v                 -- a constant expression: its value
+    | none => match tdm, e.pos.loop with
+      | true, some i => .pname i      -- `a in prog.loop_vars`: its name
+      | _, _ => .str e.pos.plain      -- `a.name` / `str` of the expression with plain names
   | .arr [_] d => .lst d            -- `_listr` of a 1-D array
-  | v => v
-
-/-- the phase of a measurement: only loop variables are converted -/
-def xirPhi (tdm : Bool) : Val → Val
-  | .sym e => match tdm, e.pos.loop with
-    | true, some i => .pname i
-    | _, _ => .sym e
   | v => v
 
 def toXStmt (tdm : Bool) (c : Cmd) : XStmt :=
   if isMeasure c.cls then
     { name := c.cls, wires := c.regs, inverse := c.dagger,
-      params := .kw ((match c.pars with | a :: _ => [("phi", xirPhi tdm a)] | [] => []) ++
+      params := .kw ((match c.pars with | a :: _ => [("phi", xirArg tdm a)] | [] => []) ++
         optKw "select" c.select ++ (if c.cls = "MeasureFock" then optKw "dark_counts" c.dark else [])) }
   else
-    { name := c.cls, wires := c.regs, inverse := c.dagger, params := .pos (c.pars.map (xirArg tdm)) }
+    { name := c.cls, wires := c.regs, inverse := c.dagger, params := .pos ((ctorParams c).map (xirArg tdm)) }
 
 def nonEmpty (s : String) : Option String := if s = "" then none else some s
 
@@ -343,69 +456,82 @@ def toXIR (p : Prog) : XIR :=
     name := nonEmpty p.name, target := p.target.bind nonEmpty, cutoff := p.cutoff, shots := p.shots,
     stmts := p.cmds.map (toXStmt p.tdm.isSome) }
 
-/-- positional argument in `from_xir`: iterables become arrays, strings are iterables -/
-def xirReadArg : Val → Except Err Val
-  | .lst l => .ok (.arr [l.length] l)
-  | .str _ => .error .typeError       -- `_listr` refuses strings
-  | .pname _ => .error .typeError
+/-- XIR `_expression`: every string is an expression (`par_from_str`; a string SymPy cannot parse
+raises `SympifyError`, a `ValueError`) -/
+def xirExpr (P : String → Option ISym) : Val → Except Err Val
+  | .str s => match P s with
+    | some e => .ok (.rrt e)
+    | none => .error .valueError
   | v => .ok v
 
-def fromXStmt (n : Nat) (s : XStmt) : Except Err Cmd :=
+/-- positional argument in `from_xir`: strings are expressions, other iterables become arrays -/
+def xirReadArg (P : String → Option ISym) : Val → Except Err Val
+  | .lst l => .ok (.arr [l.length] l)
+  | .pname i => xirExpr P (.str ("p" ++ toString i))
+  | v => xirExpr P v
+
+def fromXStmt (P : String → Option ISym) (n : Nat) (s : XStmt) : Except Err Cmd := do
+  checkName s.name
   match s.params with
   | .kw [] => build s.name s.wires [] [] s.inverse
   | .pos [] => build s.name s.wires [] [] s.inverse
   | .kw l => do
-    let kws ← convertKw n (l.map fun kv => (kv.1, unPname kv.2))
+    let vals ← l.mapM fun kv => do let v ← xirExpr P (unPname kv.2); pure (kv.1, v)
+    let kws ← convertKw n vals
     build s.name s.wires [] kws s.inverse
   | .pos l => do
-    let a ← l.mapM xirReadArg
+    let a ← l.mapM (xirReadArg P)
     let a ← a.mapM (convert n)
     build s.name s.wires a [] s.inverse
 
 /-- `from_xir` -/
-def fromXIR (x : XIR) : Except Err Prog :=
+def fromXIR (P : String → Option ISym) (x : XIR) : Except Err Prog :=
   if (x.stmts.map (·.wires)).flatten = [] then .error .valueError
   else do
     let n := modeCount (x.stmts.map (·.wires))
-    let cmds ← x.stmts.mapM (fromXStmt n)
+    let cmds ← x.stmts.mapM (fromXStmt P n)
     .ok { name := x.name.getD "sf_from_xir", n := n, target := x.target, shots := x.shots,
           cutoff := x.cutoff, tdm := none, cmds := cmds }
 
-/-- positional argument in `from_xir_to_tdm` -/
-def xirReadArgTdm (k : Nat) : Val → Except Err Val
+/-- an argument in `from_xir_to_tdm`: `p<i>` is the loop variable, other strings are expressions -/
+def xirReadArgTdm (P : String → Option ISym) (k : Nat) : Val → Except Err Val
   | .lst l => .ok (.arr [l.length] l)
   | .pname i => if i < k then .ok (.sym (loopSym i)) else .error .indexError
-  | v => .ok v
+  | v => xirExpr P v
 
-def fromXStmtTdm (n k : Nat) (s : XStmt) : Except Err Cmd :=
+/-- a keyword argument in `from_xir_to_tdm` (lists stay lists) -/
+def xirReadKwTdm (P : String → Option ISym) (k : Nat) : Val → Except Err Val
+  | .pname i => if i < k then .ok (.sym (loopSym i)) else .error .indexError
+  | v => xirExpr P v
+
+def fromXStmtTdm (P : String → Option ISym) (n k : Nat) (s : XStmt) : Except Err Cmd := do
+  checkName s.name
   match s.params with
   | .kw [] => build s.name s.wires [] [] s.inverse
   | .pos [] => build s.name s.wires [] [] s.inverse
   | .kw l => do
-    let kws ← convertKw n l
-    let kws ← kws.mapM fun kv => match kv.2 with
-      | .pname i => if i < k then .ok (kv.1, Val.sym (loopSym i)) else .error .indexError
-      | v => .ok (kv.1, v)
+    let vals ← l.mapM fun kv => do let v ← xirReadKwTdm P k kv.2; pure (kv.1, v)
+    let kws ← convertKw n vals
     build s.name s.wires [] kws s.inverse
   | .pos l => do
-    let a ← l.mapM (xirReadArgTdm k)
+    let a ← l.mapM (xirReadArgTdm P k)
     let a ← a.mapM (convert n)
     build s.name s.wires a [] s.inverse
 
 /-- `from_xir_to_tdm` -/
-def fromXIRTdm (x : XIR) : Except Err Prog :=
+def fromXIRTdm (P : String → Option ISym) (x : XIR) : Except Err Prog :=
   match x.tdmN with
   | none => .error .valueError
   | some [] => .error .valueError
   | some N => do
     let n := N.foldl (· + ·) 0
-    let cmds ← x.stmts.mapM (fromXStmtTdm n x.consts.length)
+    let cmds ← x.stmts.mapM (fromXStmtTdm P n x.consts.length)
     .ok { name := x.name.getD "xir", n := n, target := x.target, shots := x.shots, cutoff := x.cutoff,
           tdm := some { N := N, params := x.consts }, cmds := cmds }
 
 /-- `to_program` on an XIR program -/
-def toProgramXIR (x : XIR) : Except Err Prog :=
-  if x.tdmN.isSome then fromXIRTdm x else fromXIR x
+def toProgramXIR (P : String → Option ISym) (x : XIR) : Except Err Prog :=
+  if x.tdmN.isSome then fromXIRTdm P x else fromXIR P x
 
 /-! ### `_factor_out_pi` on a multiple `m · π/12` -/
 
